@@ -1603,6 +1603,34 @@ def correspondence(ctx):
         ctx.disagree("fake recvmsg vs the running kernel (control-message truncation)", d, d["kernel"], d["fake"])
     if kc["available"] and kc["ctrunc_v6_at_space24"] is False:
         ctx.disagree("MSG_CTRUNC for sockaddr_in6 in CMSG_SPACE(24)", "loopback probe", "flag not set", "c05_cmsg6_kernel_always_ctrunc")
+    # (iii) the BSD way (ipfw.recv_udp, IP_RECVDSTADDR: a bare in_addr, level IPPROTO_IP): decoder-level lists — the
+    # address item alone, behind / in front of items of OTHER levels (also ones whose type number is IP_RECVDSTADDR's:
+    # a control message is identified by level AND type), and no address item at all (round l, C05-l).  Oracle on the
+    # real function: the destination is that of the first (IPPROTO_IP, IP_RECVDSTADDR) item, port 53; None without one
+    import random as _random
+    import sshuttle.methods.ipfw as _ipfw
+    _r = _random.Random(ctx.seed ^ 0x1f05)
+    for _i in range(200 if ctx.quick() else 5000):
+        want, anc = None, []
+        for _j in range(_r.randint(0, 3)):
+            if _r.random() < 0.45:
+                ip = "%d.%d.%d.%d" % tuple(_r.randint(0, 255) for _ in range(4))
+                anc.append((socket.SOL_IP, _ipfw.IP_RECVDSTADDR, socket.inet_aton(ip) + bytes(_r.choice([0, 0, 4]))))
+                want = want or (ip, 53)
+            else:
+                lvl = _r.choice([socket.SOL_SOCKET, 0xffff, socket.IPPROTO_IPV6, socket.IPPROTO_UDP])
+                typ = _r.choice([_ipfw.IP_RECVDSTADDR, _ipfw.IP_RECVDSTADDR, 2, 20, 74])
+                anc.append((lvl, typ, bytes(_r.randint(0, 255) for _ in range(_r.choice([4, 8, 16])))))
+        lst_ = FakeListener(socket.AF_INET, msg=(b"payload", anc))
+        try:
+            got = _ipfw.recv_udp(lst_, 4096)
+        except Exception as e:       # noqa
+            got = ("raised", type(e).__name__, str(e))
+        ctx.count("ipfw_recv_udp_decoder_cases")
+        if tuple(got) != (lst_.src, want, b"payload"):
+            ctx.violation("ipfw.recv_udp does not return the destination of the (IPPROTO_IP, IP_RECVDSTADDR) control "
+                          "message (an item of another level, or none, was taken for the address)",
+                          {"control_messages": [[l_, t_, d_.hex()] for l_, t_, d_ in anc], "want": want, "got": repr(got)})
     nk, badk, notesk = dc.kernel_recv_udp_check()
     ctx.count("kernel_recv_udp_loopback_datagrams", nk)
     for d in badk:
